@@ -22,6 +22,12 @@ def register(reg):
                      canaries=['result == 0'], domains={'length': [1, 2, 3, 5, 7, 10]}))
 
 
+    # "each written value is the source value [under the chosen reduction]", "only the requested channels": the array section
+    # writer all three converters end in (the C10 contracts: one token per frame and selected channel, in order)
+    from contracts import c10
+    c10.register(reg)
+
+
 def standins(tier, seed):
     import os
     from pyvc import standin
